@@ -280,6 +280,9 @@ def op_grid(orig, r, op):
     rows = []
 
     def add(res, x, xo):
+        # a time shared by two control points is a jump: the curve is two-valued there (C08), not compared
+        if ot.count(xo) >= 2:
+            return
         rows.append([x, sf(res.value_at(x / TICK)), sf(orig.value_at(xo / TICK))])
 
     if k in ("sample_at", "extend_until"):
@@ -351,7 +354,10 @@ def run(case):
                 for part in parts:
                     d = ticks(part.duration)
                     pt = [ticks(x) for x in part.absolute_time_tuple]
+                    ot = [ticks(x) for x in orig.absolute_time_tuple]
                     for x in grid_points(0, d, pt, n=12):
+                        if ot.count(start + x) >= 2:
+                            continue  # jump instant: two-valued
                         rows.append([start + x, sf(part.value_at(x / TICK)), sf(orig.value_at((start + x) / TICK))])
                     start += d
                 out.append(["grid"] + rows)
